@@ -9,6 +9,7 @@ import (
 	"path/filepath"
 	"sort"
 	"strings"
+	"unicode/utf8"
 
 	"github.com/ChrisTrenkamp/xsel"
 
@@ -307,6 +308,9 @@ func classify(want, wrapper *model.Node) string {
 // not, the reason names the inherent limit.
 func serialisable(n *model.Node) (bool, string) {
 	okChars := func(v string) bool {
+		if !utf8.ValidString(v) {
+			return false // bytes that are not UTF-8 have no XML form
+		}
 		for _, r := range v {
 			if !(r == 0x9 || r == 0xA || r == 0xD || (r >= 0x20 && r <= 0xD7FF) || (r >= 0xE000 && r <= 0xFFFD) || r >= 0x10000) {
 				return false
